@@ -12,7 +12,7 @@ use refmodels::des as rd;
 
 // ---------------------------------------------------------------- leaf lemmas (D, 64 symbolic bits each)
 
-//@ harness name=des_leaf_ip_fp prop=C05,C20 tier=quick bits=64 est=20 desc="L: utils::ip / utils::fp (delta swaps) == FIPS 46-3 IP / IP^-1 bit tables, all 2^64 inputs"
+//@ harness name=des_leaf_ip_fp prop=C05,C20 tier=quick bits=64 est=10 desc="L: utils::ip / utils::fp (delta swaps) == FIPS 46-3 IP / IP^-1 bit tables, all 2^64 inputs"
 verif_harness! {
     name: des_leaf_ip_fp,
     bytes: 8,
@@ -25,7 +25,7 @@ verif_harness! {
     }
 }
 
-//@ harness name=des_leaf_round prop=C05,C20 tier=quick bits=112 est=60 desc="L: utils::round(input, key) == one Feistel round (L,R) -> (R, L ^ f(R,K)) with the oracle's E, S-boxes (row=b1b6, col=b2..b5) and P; input 64 bits, 48-bit subkey in the crate's left-aligned layout"
+//@ harness name=des_leaf_round prop=C05,C20 tier=quick bits=112 est=10 desc="L: utils::round(input, key) == one Feistel round (L,R) -> (R, L ^ f(R,K)) with the oracle's E, S-boxes (row=b1b6, col=b2..b5) and P; input 64 bits, 48-bit subkey in the crate's left-aligned layout"
 verif_harness! {
     name: des_leaf_round,
     bytes: 14,
@@ -41,7 +41,7 @@ verif_harness! {
     }
 }
 
-//@ harness name=des_leaf_gen_keys prop=C05,C20 tier=quick bits=64 est=120 mem=30 desc="L: utils::gen_keys(key) == FIPS 46-3 key schedule (PC1, 28-bit rotations by SHIFTS, PC2) for all 2^64 keys; multiply-and-mask PC2 carries its no-overflow obligations"
+//@ harness name=des_leaf_gen_keys prop=C05,C20 tier=quick bits=64 mem=30 est=20 desc="L: utils::gen_keys(key) == FIPS 46-3 key schedule (PC1, 28-bit rotations by SHIFTS, PC2) for all 2^64 keys; multiply-and-mask PC2 carries its no-overflow obligations"
 verif_harness! {
     name: des_leaf_gen_keys,
     bytes: 8,
@@ -59,7 +59,7 @@ verif_harness! {
     }
 }
 
-//@ harness name=des_parity_ignored prop=C05 tier=quick bits=72 est=60 desc="gen_keys(k) == gen_keys(k ^ m) for every m within 0x0101010101010101: the eight parity bits never influence the subkeys"
+//@ harness name=des_parity_ignored prop=C05 tier=quick bits=72 est=15 desc="gen_keys(k) == gen_keys(k ^ m) for every m within 0x0101010101010101: the eight parity bits never influence the subkeys"
 verif_harness! {
     name: des_parity_ignored,
     bytes: 9,
@@ -99,7 +99,7 @@ fn oracle_f(r: u32, k48: u64) -> u32 {
     (uf_f::call((r as u64) << 32, k48 << 16) >> 32) as u32
 }
 
-//@ harness name=des_wire_enc prop=C05 tier=quick bits=128 stub=1 est=60 desc="W: Des::new(key).encrypt_block(b) == FIPS 46-3 encryption, all keys and blocks; real IP/FP/key schedule/round wiring, cipher function f uninterpreted (shared with the oracle)"
+//@ harness name=des_wire_enc prop=C05 tier=quick bits=128 stub=1 est=35 desc="W: Des::new(key).encrypt_block(b) == FIPS 46-3 encryption, all keys and blocks; real IP/FP/key schedule/round wiring, cipher function f uninterpreted (shared with the oracle)"
 verif_harness! {
     name: des_wire_enc,
     bytes: 16,
@@ -117,7 +117,7 @@ verif_harness! {
     }
 }
 
-//@ harness name=des_wire_dec prop=C05 tier=quick bits=128 stub=1 est=60 desc="W: Des::new(key).decrypt_block(b) == FIPS 46-3 decryption (reversed subkeys), all keys and blocks, f uninterpreted"
+//@ harness name=des_wire_dec prop=C05 tier=quick bits=128 stub=1 est=35 desc="W: Des::new(key).decrypt_block(b) == FIPS 46-3 decryption (reversed subkeys), all keys and blocks, f uninterpreted"
 verif_harness! {
     name: des_wire_dec,
     bytes: 16,
@@ -228,13 +228,13 @@ fn ud(k: u64, x: u64) -> u64 {
     uf_d::call(k, x)
 }
 
-//@ harness name=tdes_ede3_wire prop=C05 tier=quick bits=256 stub=1 est=30 desc="W: TdesEde3 == SP 800-67 E_k3(D_k2(E_k1(.))) and its inverse, key split in order into 8-byte parts; single-DES encrypt/decrypt uninterpreted per key part; all 2^192 keys, all blocks"
+//@ harness name=tdes_ede3_wire prop=C05 tier=quick bits=256 stub=1 est=15 desc="W: TdesEde3 == SP 800-67 E_k3(D_k2(E_k1(.))) and its inverse, key split in order into 8-byte parts; single-DES encrypt/decrypt uninterpreted per key part; all 2^192 keys, all blocks"
 tdes_wire!(tdes_ede3_wire, TdesEde3, 24, |k, x| ue(kp(k, 2), ud(kp(k, 1), ue(kp(k, 0), x))), |k, x| ud(kp(k, 0), ue(kp(k, 1), ud(kp(k, 2), x))));
-//@ harness name=tdes_ede2_wire prop=C05 tier=quick bits=192 stub=1 est=30 desc="W: TdesEde2 == E_k1(D_k2(E_k1(.))) (three-key form with the first part repeated) and inverse; all 2^128 keys, all blocks"
+//@ harness name=tdes_ede2_wire prop=C05 tier=quick bits=192 stub=1 est=15 desc="W: TdesEde2 == E_k1(D_k2(E_k1(.))) (three-key form with the first part repeated) and inverse; all 2^128 keys, all blocks"
 tdes_wire!(tdes_ede2_wire, TdesEde2, 16, |k, x| ue(kp(k, 0), ud(kp(k, 1), ue(kp(k, 0), x))), |k, x| ud(kp(k, 0), ue(kp(k, 1), ud(kp(k, 0), x))));
-//@ harness name=tdes_eee3_wire prop=C05 tier=quick bits=256 stub=1 est=30 desc="W: TdesEee3 == E_k3(E_k2(E_k1(.))) and inverse D_k1(D_k2(D_k3(.))); all 2^192 keys, all blocks"
+//@ harness name=tdes_eee3_wire prop=C05 tier=quick bits=256 stub=1 est=15 desc="W: TdesEee3 == E_k3(E_k2(E_k1(.))) and inverse D_k1(D_k2(D_k3(.))); all 2^192 keys, all blocks"
 tdes_wire!(tdes_eee3_wire, TdesEee3, 24, |k, x| ue(kp(k, 2), ue(kp(k, 1), ue(kp(k, 0), x))), |k, x| ud(kp(k, 0), ud(kp(k, 1), ud(kp(k, 2), x))));
-//@ harness name=tdes_eee2_wire prop=C05 tier=quick bits=192 stub=1 est=30 desc="W: TdesEee2 == E_k1(E_k2(E_k1(.))) and inverse; all 2^128 keys, all blocks"
+//@ harness name=tdes_eee2_wire prop=C05 tier=quick bits=192 stub=1 est=15 desc="W: TdesEee2 == E_k1(E_k2(E_k1(.))) and inverse; all 2^128 keys, all blocks"
 tdes_wire!(tdes_eee2_wire, TdesEee2, 16, |k, x| ue(kp(k, 0), ue(kp(k, 1), ue(kp(k, 0), x))), |k, x| ud(kp(k, 0), ud(kp(k, 1), ud(kp(k, 0), x))));
 
 // Round trips of the four TDES types (C01), decomposed (the direct form with every one of the 192 cipher-function calls in
@@ -383,7 +383,7 @@ tdes_roundtrip!(tdes_eee2_roundtrip, TdesEee2 { d1, d2 }, 2);
 
 // ---------------------------------------------------------------- key relations (real code on both sides)
 
-//@ harness name=tdes_ede3_equal_parts_is_des prop=C05 tier=quick bits=128 stub=1 est=60 desc="TdesEde3 with all three parts equal computes single Des with that key (both directions), all keys and blocks; real key schedules; single DES on a subkey array an uninterpreted keyed bijection pair on both sides (justified by des_state_roundtrip)"
+//@ harness name=tdes_ede3_equal_parts_is_des prop=C05 tier=quick bits=128 stub=1 est=55 desc="TdesEde3 with all three parts equal computes single Des with that key (both directions), all keys and blocks; real key schedules; single DES on a subkey array an uninterpreted keyed bijection pair on both sides (justified by des_state_roundtrip)"
 verif_harness! {
     name: tdes_ede3_equal_parts_is_des,
     bytes: 16,
@@ -413,7 +413,7 @@ verif_harness! {
     }
 }
 
-//@ harness name=des_complementation prop=C05 tier=quick bits=112 est=60 desc="complementation at the round level with the real round function: round(!x, !k) == !round(x, k) for all inputs and 48-bit subkeys (with gen_keys(!key) == !gen_keys(key) on the 48 key bits this gives Des(!k).enc(!p) == !Des(k).enc(p))"
+//@ harness name=des_complementation prop=C05 tier=quick bits=112 est=25 desc="complementation at the round level with the real round function: round(!x, !k) == !round(x, k) for all inputs and 48-bit subkeys (with gen_keys(!key) == !gen_keys(key) on the 48 key bits this gives Des(!k).enc(!p) == !Des(k).enc(p))"
 verif_harness! {
     name: des_complementation,
     bytes: 22,
